@@ -5,7 +5,7 @@ LEVEL = "model_checking"
 EMPTY_COVERAGE = dict(states=0, transitions=0, traces_validated_against_impl=0, samples=[])
 MACHINES = ["xof", "xofa", "xof:fixed", "xofa:fixed", "xof:custom", "xofa:custom", "hash", "hasha", "prf", "prf:fixed",
             "kmac", "kmaca", "kdf", "kdfa", "hmac", "hmaca", "hkdf", "hkdfa",
-            "enc128", "enc128a", "enc80pq", "dec128", "dec128a", "dec80pq", "enc128:null", "enc128a:null", "enc80pq:null", "dec80pq:null"]
+            "enc128", "enc128a", "enc80pq", "dec128", "dec128a", "dec80pq", "enc128:null", "enc128a:null", "enc80pq:null", "dec80pq:null", "longrun", "longrun-a"]
 
 
 def run(ctx):
@@ -31,6 +31,6 @@ def run(ctx):
                max_depth=ctx.stats.get("max_depth", 0), merged_edges=ctx.stats.get("merged_edges", 0),
                machines=MACHINES,
                rule="BFS from the freshly initialised object of each of 28 interfaces x 5 backends; edges: absorb/update/process chunk of every length 0..2r+1 (in-place and out-of-place for AEAD), "
-                    "squeeze/expand chunk of every length 0..2r+1, finalize, copy, re-init; oracle on every edge",
+                    "squeeze/expand chunk of every length 0..2r+1, finalize, copy, re-init; oracle on every edge; plus a long run of 66,001 bytes in chunks of 7 / 13 through every interface against the single-call result",
                exhaustive=True)
     return LEVEL, cov
